@@ -11,6 +11,10 @@ def main(argv):
     tier = os.environ.get('VERIF_TIER', tier)
     seed = int(os.environ.get('VERIF_SEED', '0') or 0)
     sys.setrecursionlimit(20000)
+    # every import of soupsieve in this process and its workers comes from the tree under check (default /repo)
+    repo = os.environ.get('VERIF_REPO', '/repo')
+    if repo not in sys.path:
+        sys.path.insert(0, repo)
     from . import runner
     return runner.run_property(prop, tier, seed)
 
